@@ -267,8 +267,11 @@ def finish(mod, prop, args, results, failures, wall):
         "violations": len(new_viol) if not new_viol else n_viol - sum(len(v) for v in known_hits.values()),
         "verdict": "violated" if new_viol else ("inconclusive" if inconclusive else "held-on-observed"),
     }
-    os.makedirs(os.path.join(boot.VERIF, "evidence"), exist_ok=True)
-    with open(os.path.join(boot.VERIF, "evidence", f"{prop}.json"), "w") as f:
+    evdir = os.path.join(boot.VERIF, "evidence")
+    if os.environ.get("VERIF_KEEP_EVIDENCE"):  # mutation runs against scratch copies must not replace real evidence
+        evdir = os.path.join(boot.VERIF, ".tmp", "evidence-scratch")
+    os.makedirs(evdir, exist_ok=True)
+    with open(os.path.join(evdir, f"{prop}.json"), "w") as f:
         json.dump(jsonable(ev), f, indent=1, sort_keys=False)
         f.write("\n")
 
